@@ -7,6 +7,40 @@ structure DSt where
   s : Prof.St := Prof.St.init
   clock : Int := 0
   delta : Int := 0
+  -- running totals of the quantities of `C01.reported_hits_exact` (`Prof.delivStep`, `Prof.dropStep`), per registered key
+  deliv : List ((Blk × Int) × Nat) := []
+  drops : List ((Blk × Int) × Nat) := []
+  threads : List Nat := []
+
+def bumpA (k : Blk × Int) (n : Nat) (l : List ((Blk × Int) × Nat)) : List ((Blk × Int) × Nat) :=
+  if n = 0 then l else
+  match Prof.alookup k l with
+  | some v => Prof.aset k (v + n) l
+  | none => l ++ [(k, n)]
+
+/-- one operation of the model, with the accounting of what it delivers to the callback / drops -/
+def applyOp (d : DSt) (op : Prof.Op) : DSt :=
+  let deliv := match op with
+    | .ev e => bumpA (e.b, e.l) (Prof.delivStep d.s op e.b e.l) d.deliv
+    | _ => d.deliv
+  let drops := d.s.core.regs.eraseDups.foldl (fun acc k => bumpA k (Prof.dropStep d.s op k.1 k.2) acc) d.drops
+  let threads := match op.thread with
+    | some t => if t ∈ d.threads then d.threads else d.threads ++ [t]
+    | none => d.threads
+  { d with s := d.s.step op, deliv := deliv, drops := drops, threads := threads }
+
+def showAcct (d : DSt) : String :=
+  let labs := (Prof.labelsOf d.s.chm).mergeSort (· ≤ ·)
+  let parts := labs.filterMap fun lab =>
+    let cs := d.s.chm.filter (fun p => p.1.label = lab)
+    let lines := ((cs.flatMap fun p => Prof.candLines d.s.core.regs p.1.blk).eraseDups).mergeSort (· ≤ ·)
+    let cells := lines.filterMap fun l =>
+      let del := (cs.map fun p => (Prof.alookup (p.1.blk, l) d.deliv).getD 0).sum
+      let dr := (cs.map fun p => (Prof.alookup (p.1.blk, l) d.drops).getD 0).sum
+      let pe := (cs.map fun p => Core.pend d.s.core.abs d.threads p.1.blk l).sum
+      if del = 0 ∧ dr = 0 ∧ pe = 0 then none else some s!"{l},{del},{dr},{pe}"
+    if cells.isEmpty then none else some (s!"{lab}:" ++ ";".intercalate cells)
+  "acct " ++ "|".intercalate parts
 
 def parseInts (s : String) : Option (List Int) :=
   if s = "-" then some [] else (s.splitOn ",").mapM String.toInt?
@@ -28,35 +62,35 @@ def step (d : DSt) (w : List String) : DSt × List String :=
   | ["decl", f, base, label, lines] =>
     match f.toNat?, base.toNat?, label.toNat?, parseInts lines with
     | some f, some base, some label, some lines =>
-      ({ d with s := d.s.step (.decl f { blk := ⟨base, 0⟩, label := label, lines := lines }) }, [])
+      (applyOp d (.decl f { blk := ⟨base, 0⟩, label := label, lines := lines }), [])
     | _, _, _, _ => (d, ["bad-op"])
   | ["add", f] =>
     match f.toNat? with
     | some f =>
-      let s' := d.s.step (.add f)
-      match Prof.alookup f s'.funcs with
-      | some c => ({ d with s := s' }, [s!"blk {c.blk.base} {c.blk.pad}"])
+      let d' := applyOp d (.add f)
+      match Prof.alookup f d'.s.funcs with
+      | some c => (d', [s!"blk {c.blk.base} {c.blk.pad}"])
       | none => (d, ["undeclared"])
     | none => (d, ["bad-op"])
   | ["enbc", t] =>
     match t.toNat? with
     | some t => match d.s.enableByCount t with
-      | .ok s' => ({ d with s := s' }, ["ok"])
+      | .ok _ => (applyOp d (.enableBC t), ["ok"])
       | .error e => (d, [s!"err {e}"])
     | none => (d, ["bad-op"])
   | ["disbc", t] =>
     match t.toNat? with
-    | some t => let s' := d.s.disableByCount t; ({ d with s := s' }, ["ok"])
+    | some t => (applyOp d (.disableBC t), ["ok"])
     | none => (d, ["bad-op"])
   | ["enable", t] =>
     match t.toNat? with
     | some t => match d.s.enable t with
-      | .ok s' => ({ d with s := s' }, ["ok"])
+      | .ok _ => (applyOp d (.enable t), ["ok"])
       | .error e => (d, [s!"err {e}"])
     | none => (d, ["bad-op"])
   | ["disable", t] =>
     match t.toNat? with
-    | some t => let s' := d.s.disable t; ({ d with s := s' }, ["ok"])
+    | some t => (applyOp d (.disable t), ["ok"])
     | none => (d, ["bad-op"])
   | ["state", t] =>
     match t.toNat? with
@@ -73,7 +107,7 @@ def step (d : DSt) (w : List String) : DSt × List String :=
       -- the clock is read once (RETURN) or twice (LINE), only when the line hash is known and
       -- only when the callback runs at all
       let reads : Int := if d.s.tracing t ∧ (b, line) ∈ d.s.core.regs then (if isLine then 2 else 1) else 0
-      ({ d with s := d.s.step (.ev e), clock := d.clock + reads * d.delta }, [])
+      ({ applyOp d (.ev e) with clock := d.clock + reads * d.delta }, [])
     | _, _, _, _, _ => (d, ["bad-op"])
   | ["tick", n] =>
     match n.toInt? with
@@ -85,6 +119,7 @@ def step (d : DSt) (w : List String) : DSt × List String :=
     | none => (d, ["bad-op"])
   | ["clock"] => (d, [s!"clock {d.clock}"])
   | ["stats"] => (d, [showStats d.s])
+  | ["acct"] => (d, [showAcct d])
   | ["nfuncs"] => (d, [s!"nfuncs {d.s.nfuncs}"])
   | ["reset"] => ({}, [])
   | _ => (d, ["bad-op"])
